@@ -156,7 +156,7 @@ func observe(c Case) []uint64 {
 		mn, mx := mt.Range(maptile.Zoom(c.Z2))
 		tl(mn)
 		tl(mx)
-		if c.CIZR && c.ZS >= c.A.Z && c.ZE >= c.ZS && c.ZE-c.A.Z <= 7 {
+		if c.CIZR && c.ZS >= c.A.Z && c.ZE >= c.ZS && c.ZE-c.A.Z <= 12 {
 			for _, g := range maptile.ChildrenInZoomRange(mt, maptile.Zoom(c.ZS), maptile.Zoom(c.ZE)) {
 				tl(g)
 			}
@@ -396,4 +396,44 @@ func TestPropConcurrent(t *testing.T) {
 		}
 		stats.TryParallel(rt, "TestPropConcurrent", cs, n, 25, func(i int) error { return checkCase(cs[i]) })
 	})
+}
+
+// ---------------------------------------------------------------- L1 size ladder
+
+// TestEnumLarge (class L1): the size dimension of this property is the number
+// of tiles a range query returns. ChildrenInZoomRange is asked for single deep
+// levels (4^d tiles) and for whole intervals (sums of powers of four) up to
+// d = 9 in quick and d = 11 (4.2 M tiles; one tile at d = 12, 16.8 M) in thorough,
+// for tiles at zoom 0, 1, 18 (high bits set) and 30-d; every returned tile is
+// judged (descendant, zoom, no duplicate, count) and Range must box them.
+func TestEnumLarge(t *testing.T) {
+	top := uint32(9)
+	if stats.Thorough() {
+		top = 11
+	}
+	var idx int64
+	run := func(tl T, zs, ze uint32) {
+		idx++
+		if !stats.Mine(idx) {
+			return
+		}
+		c := Case{Kind: "range", A: tl, Z2: ze, CIZR: true, ZS: zs, ZE: ze}
+		stats.Eval("TestEnumLarge", 1)
+		stats.Class(fmt.Sprintf("large:children-in-zoom-range depth %d", ze-tl.Z))
+		stats.NonTrivialHash(enumKey(11, tl, uint64(zs)<<8|uint64(ze)))
+		stats.TryT(t, "TestEnumLarge", c, func() error { return checkCase(c) })
+	}
+	for d := uint32(5); d <= top; d++ {
+		tiles := []T{{0, 0, 0}, {1, 0, 1}, {1<<18 - 1, 1 << 17, 18}, {1<<(30-d) - 1, 1<<(30-d) - 2, 30 - d}}
+		for _, tl := range tiles {
+			run(tl, tl.Z+d, tl.Z+d)   // one deep level: 4^d tiles
+			run(tl, tl.Z, tl.Z+d)     // the whole pyramid: (4^(d+1)-1)/3
+			run(tl, tl.Z+d-1, tl.Z+d) // two levels: 5 * 4^(d-1)
+			run(tl, tl.Z+1, tl.Z+d-1) // without the ends
+		}
+	}
+	if stats.Thorough() {
+		run(T{1<<18 - 1, 1 << 17, 18}, 30, 30) // 4^12 = 16 777 216 tiles
+	}
+	stats.Subspace(fmt.Sprintf("ChildrenInZoomRange result sizes 4^d and interval sums for d = 5..%d (thorough: one case of 4^12) x 4 tiles", top), idx, true)
 }
